@@ -46,12 +46,12 @@ PLANS = {
     "C10": P("exploration", WRAP, 1500, 400, WRAP, 8000, 800),
     "C11": P("exploration", STRICT4, 10000, 400, STRICT4, 30000, 800, strict=True, san_to_stderr=True),
     "C13": P("exploration", ["small", "small-nosse", "mid"], 48000, 500, ["small", "small-nosse", "mid", "host"], 150000, 1200, shards=15),
-    "C14": P("exploration", WRAP, 1500, 100, WRAP + ["small-ts-wrap-strict"], 5000, 100),
+    "C14": P("exploration", WRAP, 1500, 100, WRAP + ["small-ts-wrap-strict"], 5000, 100, case_timeout=900),
     "C17": P("exploration", SEM, 60000, 400, SEM + ["host"], 200000, 1000),
     "C18": P("exploration", ["small-strict", "small-nosse-strict"], 2000, 300, ["small-strict", "small-nosse-strict"], 8000, 600,
              strict=True, san_to_stderr=True),
     "C19": P("exploration", SEM, 30000, 300, SEM + ["host", "host-nosse"], 100000, 600),
-    "C20": P("fault_enumeration", FAULT3, 30, 100, FAULT3, 100, 100, shards=15, strict=True, san_to_stderr=True),
+    "C20": P("fault_enumeration", FAULT3, 30, 100, FAULT3, 100, 100, shards=15, strict=True, san_to_stderr=True, case_timeout=1500),
 }
 
 
@@ -66,7 +66,7 @@ def seed_for(base, prop, cfg, shard):
 
 def san_env(logbase, strict=False, extra=None):
     env = dict(os.environ)
-    env["ASAN_OPTIONS"] = "halt_on_error=%d:detect_leaks=0:allocator_may_return_null=1:log_path=%s:abort_on_error=%d" % (
+    env["ASAN_OPTIONS"] = "halt_on_error=%d:detect_leaks=0:allocator_may_return_null=1:quarantine_size_mb=64:log_path=%s:abort_on_error=%d" % (
         1 if strict else 0, logbase, 1 if strict else 0)
     env["UBSAN_OPTIONS"] = "print_stacktrace=1:log_path=%s:halt_on_error=%d" % (logbase, 1 if strict else 0)
     env["TSAN_OPTIONS"] = "log_path=%s:halt_on_error=0:ignore_noninstrumented_modules=1" % logbase
@@ -208,6 +208,7 @@ def generic_check(prop, tier, seed, plan=None, binaries=None, extra_args=None, s
         env["VF_TMP"] = rundir
         if plan.get("env"):
             env.update(plan["env"])
+        env["VF_CASE_TIMEOUT"] = str(plan.get("case_timeout", 240 if tier == "quick" else 900))
         ebs = plan.get("env_by_shard")
         if ebs:
             env.update(ebs[j["sh"] % len(ebs)])
@@ -262,7 +263,10 @@ def generic_check(prop, tier, seed, plan=None, binaries=None, extra_args=None, s
             case = ""
             if os.path.exists(j["journal"]):
                 case = open(j["journal"]).read().strip()
-            if j["rc"] == -999:
+            if j["rc"] == -14:
+                merged["failures"].append(dict(kind="hang", cfg=j["cfg"], case=case,
+                                               msg="hang: a single case exceeded the per-case limit (SIGALRM)"))
+            elif j["rc"] == -999:
                 msg = "hang: " + j["stderr"]
                 merged["failures"].append(dict(kind="hang", cfg=j["cfg"], case=case, msg=msg))
             else:
@@ -282,7 +286,7 @@ def confirm(prop, fail, binaries, strict=False, extra_env=None, runs=3, need=2):
     last = ""
     for _ in range(runs):
         st, out = run_replay(binaries[fail["cfg"]], p, strict, extra_env=extra_env,
-                             timeout=300 if fail.get("kind") == "hang" else 900)
+                             timeout=200 if fail.get("kind") == "hang" else 900)
         if fail.get("kind") == "hang" and st == "pass":
             break  # the single case terminates: the shard was merely slow (inconclusive, not a violation)
         last = out
@@ -414,15 +418,26 @@ def finish(prop, tier, seed, level, merged, reg, rule, t0, extra_cov=None, stric
         log("regression replay failed: %s\n%s" % (p, out))
     unrepro = []
     seen = set()
-    for f in merged["failures"]:
+    # confirm oracle failures first, then crashes, then hangs (slow to confirm); a handful of confirmed replays is enough,
+    # and hangs are only replayed when nothing else has been confirmed
+    order = {"oracle": 0, "crash": 1, "hang": 2}
+    ranked = sorted(merged["failures"], key=lambda f: order.get(f.get("kind"), 1))
+    confirmed_n = 0
+    for f in ranked:
         if f["case"] in seen:
             continue
         seen.add(f["case"])
+        if confirmed_n >= 6 or (f.get("kind") == "hang" and (confirmed_n >= 1 or len(violations) >= 1)):
+            continue
         if f.get("kind") == "oracle" and f["cfg"] not in merged["binaries"]:
             continue
-        p, out = confirm(prop, f, merged["binaries"], strict, extra_env, confirm_runs, confirm_need)
+        if f.get("kind") == "hang":
+            p, out = confirm(prop, f, merged["binaries"], strict, extra_env, 2, 2)
+        else:
+            p, out = confirm(prop, f, merged["binaries"], strict, extra_env, confirm_runs, confirm_need)
         if p:
             violations.append(p)
+            confirmed_n += 1
             log("confirmed failure (%s, cfg %s): %s\n  case: %s" % (f["kind"], f["cfg"], f["msg"][:500], f["case"]))
         else:
             unrepro.append(dict(case=f["case"], msg=f["msg"][:300]))
